@@ -8,6 +8,7 @@ import (
 
 	"github.com/pegnet/pegnetd/config"
 	"github.com/pegnet/pegnetd/node/conversions"
+	"verif/harness/gen"
 )
 
 // cmdConvK calls the real conversion kernel (conversions.Convert) on a grid of small arguments in the three eras around the
@@ -16,6 +17,7 @@ import (
 func cmdConvK(args []string) {
 	fs := flag.NewFlagSet("convk", flag.ExitOnError)
 	out := fs.String("out", "", "output file (ndjson)")
+	big := fs.Bool("big", false, "64-bit arguments (edges of int64 / uint64, overflow branch), numbers written as base-10^4 limbs")
 	fs.Parse(args)
 	f, err := os.Create(*out)
 	if err != nil {
@@ -23,6 +25,29 @@ func cmdConvK(args []string) {
 	}
 	w := bufio.NewWriter(f)
 	enc := json.NewEncoder(w)
+	if *big {
+		bamts := []int64{1, 100000000, 1 << 31, 1 << 62, 1<<63 - 1}
+		brates := []uint64{1, 3, 100000000, 9000000000000000, 1<<64 - 1}
+		for era := 0; era <= 1; era++ {
+			h := config.PIP10AverageActivation - 1 + uint32(era)
+			for _, a := range bamts {
+				for _, fr := range brates {
+					for _, fa := range brates {
+						for _, tr := range brates {
+							for _, ta := range brates {
+								v, err := conversions.Convert(h, a, fr, fa, tr, ta)
+								enc.Encode(map[string]interface{}{"era": era, "amt": gen.Limbs(uint64(a)), "fr": gen.Limbs(fr), "fa": gen.Limbs(fa),
+									"tr": gen.Limbs(tr), "ta": gen.Limbs(ta), "ok": err == nil, "v": gen.Limbs(uint64(v))})
+							}
+						}
+					}
+				}
+			}
+		}
+		w.Flush()
+		f.Close()
+		return
+	}
 	amts := []int64{0, 1, 2, 3, 5, 7, 1000, 46340}
 	rates := []uint64{0, 1, 2, 3, 7, 46340}
 	act := config.PIP10AverageActivation
